@@ -61,8 +61,9 @@ func (c04) Generate(c *Ctx) []any {
 		in.Decoy = i%3 != 2
 		nm := 1 + r.Intn(3)
 		in.Generic = r.Intn(4) == 0
+		bNames := bNamesFor(r, i)
 		for k := 0; k < nm; k++ {
-			in.Methods = append(in.Methods, genBMethod(r, bMethodNames[k]))
+			in.Methods = append(in.Methods, genBMethod(r, bNames[k]))
 			in.FuncOn = append(in.FuncOn, r.Intn(5) != 0)
 		}
 		nops := 6 + r.Intn(c.Budget(14, 40))
